@@ -242,6 +242,64 @@ theorem C13_tail_kept (j t : Bytes) : t <:+ (j ++ t).drop (min j.length ((j ++ t
   refine ⟨j.drop (min j.length ((j ++ t).length - 6)), ?_⟩
   rw [List.drop_append_of_le_length (Nat.min_le_left _ _)]
 
+/-! ## Every octet string is a stream in the sense of the statement -/
+
+private theorem junk_nil (ids : List Nat) (x : Bytes) : Junk ids [] x := by
+  intro i hi; simp at hi
+
+private theorem junk_cons (ids : List Nat) (o : UInt8) (j y : Bytes)
+    (h0 : pidOf (o :: (j ++ y)) ∉ ids) (hj : Junk ids j y) : Junk ids (o :: j) y := by
+  intro i hi hi'
+  cases i with
+  | zero => simpa using h0
+  | succ i =>
+    have := hj i (by simp at hi; omega) (by simp at hi' ⊢; omega)
+    simpa using this
+
+/-- **the decomposition always exists**: every octet string is (uniquely, by `C13_stream_junk_tail`)
+    of the form junk₁ ‖ packet₁ ‖ … ‖ junkₙ ‖ packetₙ ‖ junk ‖ incomplete tail with well-formed
+    registered packets and junk that carries no registered ID. Hence the stream theorem and the
+    lossless corollary speak about EVERY input: the parser's result on arbitrary octets is
+    prescribed by the statement (this is why the correspondence check may treat every generated
+    stream as an input inside the property's domain). -/
+theorem C13_every_stream (ids : List Nat) (b : Bytes) :
+    ∃ segs j t, WFStream ids segs ∧ Junk ids j t ∧ Incomplete ids t ∧ b = stream segs (j ++ t) := by
+  fun_induction scan ids b with
+  | case1 rest h6 => exact ⟨[], [], rest, trivial, junk_nil ids _, Or.inl h6, by simp [stream]⟩
+  | case2 rest h6 hpid hinc =>
+    exact ⟨[], [], rest, trivial, junk_nil ids _, Or.inr ⟨hpid, by omega⟩, by simp [stream]⟩
+  | case3 rest h6 hpid hinc r ih =>
+    obtain ⟨segs, j, t, hs, hj, ht, he⟩ := ih
+    simp only [headerLen] at h6
+    have h7 := totalOf_ge rest
+    have hle : totalOf rest ≤ rest.length := by omega
+    refine ⟨([], rest.take (totalOf rest)) :: segs, j, t, ⟨junk_nil ids _, ⟨?_, ?_, ?_⟩, hs⟩, hj, ht, ?_⟩
+    · simp; omega
+    · rw [pidOf_take _ _ (by omega) hle]; exact hpid
+    · rw [totalOf_take _ _ (by omega) hle]; simp; omega
+    · simp only [stream, List.nil_append, ← he, List.take_append_drop]
+  | case4 rest h6 hpid ih =>
+    obtain ⟨segs, j, t, hs, hj, ht, he⟩ := ih
+    simp only [headerLen] at h6
+    obtain ⟨o, tl, rfl⟩ : ∃ o tl, rest = o :: tl := by
+      cases rest with
+      | nil => simp at h6
+      | cons o tl => exact ⟨o, tl, rfl⟩
+    simp only [List.drop_succ_cons, List.drop_zero] at he
+    cases segs with
+    | nil =>
+      simp only [stream] at he
+      exact ⟨[], o :: j, t, trivial, junk_cons ids o j t (by rw [← he]; exact hpid) hj, ht, by simp [stream, he]⟩
+    | cons seg segs =>
+      obtain ⟨j₁, p₁⟩ := seg
+      obtain ⟨hj₁, hp₁, hs'⟩ := hs
+      simp only [stream] at he
+      refine ⟨(o :: j₁, p₁) :: segs, j, t, ⟨junk_cons ids o j₁ p₁ ?_ hj₁, hp₁, hs'⟩, hj, ht, by simp [stream, he]⟩
+      have h2 : 2 ≤ (o :: (j₁ ++ p₁)).length := by have := hp₁.1; simp; omega
+      have : pidOf ((o :: (j₁ ++ p₁)) ++ stream segs (j ++ t)) ∉ ids := by
+        simpa [he] using hpid
+      rwa [pidOf_append _ _ h2] at this
+
 /-! ## Lossless reassembly under any fragmentation and any interleaving -/
 
 /-- **lossless**: take any well-formed stream (packets with registered IDs separated by junk, then
